@@ -839,3 +839,58 @@ Proof.
   - split; vm_compute; [reflexivity|discriminate].
   - unfold LIM. lia.
 Qed.
+
+(* ------------------------------------------------------------------------------------------ *)
+(* statements in the form used by Properties_C07                                               *)
+Lemma plain_rfc4616 : forall authid password,
+  sasl_plain authid password = AOk (encode ([0] ++ authid ++ [0] ++ password)) /\
+  (bytes authid -> bytes password ->
+     sasl_plain authid password = AOk (spec_encode ([0] ++ authid ++ [0] ++ password))).
+Proof.
+  intros a p. split; [apply plain_lemma|]. intros Ha Hp. rewrite plain_lemma. unfold rfc4616_message.
+  rewrite encode_canonical; [reflexivity|].
+  repeat (apply Forall_app; split); try assumption; repeat constructor; unfold is_byte; lia.
+Qed.
+
+Lemma nonce_hex_length : forall l, length (flat_map nonce_hex l) = (2 * length l)%nat.
+Proof. induction l as [|b l IH]; cbn [flat_map length app nonce_hex]; [reflexivity|]. rewrite IH. lia. Qed.
+
+Lemma scram_first_wellformed :
+  forall plus secured cbtype cbdata jid rng node,
+    spec_node jid = Some node ->
+    plus_ready plus secured cbtype cbdata ->
+    let cbname := opt_list cbtype in
+    let gs2 := if plus then [112; 61] ++ cbname ++ [44; 44] else [if secured then 121 else 110; 44; 44] in
+    let cnonce := rand_nonce (firstn 16 rng) 33 in
+    exists si,
+      fst (make_scram_init_msg plus secured cbtype cbdata jid rng) = AOk si /\
+      si_message si = gs2 ++ [110; 61] ++ scram_escape node ++ [44; 114; 61] ++ cnonce /\
+      scram_first_bare si = [110; 61] ++ scram_escape node ++ [44; 114; 61] ++ cnonce /\
+      si_channel_binding si = encode (gs2 ++ (if plus then opt_list cbdata else [])) /\
+      saslname_decode (scram_escape node) = Some node /\ cfree (scram_escape node) /\
+      (forall c, In c cnonce -> In c [48; 49; 50; 51; 52; 53; 54; 55; 56; 57; 65; 66; 67; 68; 69; 70]) /\
+      ((16 <= length rng)%nat -> length cnonce = 32%nat).
+Proof.
+  intros plus secured cbtype cbdata jid rng node Hnode Hready cbname gs2 cnonce.
+  assert (Tail : saslname_decode (scram_escape node) = Some node /\ cfree (scram_escape node) /\
+      (forall c, In c cnonce -> In c [48; 49; 50; 51; 52; 53; 54; 55; 56; 57; 65; 66; 67; 68; 69; 70]) /\
+      ((16 <= length rng)%nat -> length cnonce = 32%nat)).
+  { split; [apply escape_decode|]. split; [apply escape_cfree|]. split.
+    - intros c Hc. apply (nonce_chars _ _ _ Hc).
+    - intros Hl. unfold cnonce, rand_nonce. rewrite firstn_length, nonce_hex_length, !firstn_length.
+      change (Z.to_nat (33 / 2)) with 16%nat. change (Z.to_nat (33 - 1)) with 32%nat. lia. }
+  destruct plus.
+  - destruct (Hready eq_refl) as (Hsec & Ht & Hdt & Htl & Hdl). subst secured.
+    destruct cbtype as [t|]; [|contradiction]. destruct cbdata as [d|]; [|contradiction]. cbn [opt_list] in *.
+    eexists. split; [exact (init_plus t d jid rng node Hnode Htl Hdl)|].
+    cbn [si_message si_first_bare si_channel_binding]. unfold scram_first_bare. cbn [si_message si_first_bare].
+    split; [unfold client_first_of, gs2_header, gs2, cbname; rewrite <- !app_assoc; reflexivity|].
+    split.
+    { unfold client_first_of, gs2_header. replace (Z.to_nat (zlen t + 4)) with (length ([112; 61] ++ t ++ [44; 44]))
+        by (rewrite <- to_nat_zlen; f_equal; rewrite !zlen_app; change (zlen [112; 61]) with 2; change (zlen [44; 44]) with 2; lia).
+      rewrite skipn_exact. reflexivity. }
+    split; [unfold gs2_header, gs2, cbname; rewrite <- !app_assoc; reflexivity|exact Tail].
+  - eexists. split; [exact (init_noplus secured cbtype cbdata jid rng node Hnode)|].
+    cbn [si_message si_first_bare si_channel_binding]. unfold scram_first_bare. cbn [si_message si_first_bare].
+    split; [reflexivity|]. split; [reflexivity|]. split; [unfold gs2; rewrite app_nil_r; reflexivity|exact Tail].
+Qed.
